@@ -12,6 +12,7 @@ package main
 import (
 	"context"
 	"encoding/binary"
+	"encoding/json"
 	"flag"
 	"fmt"
 	"os"
@@ -301,6 +302,14 @@ func (g *genState) badFrame() FrameSpec {
 		}
 	case 7: // empty or tiny binary message
 		return FrameSpec{Kind: "raw", Raw: fmt.Sprintf("%x", r.Bytes(r.Intn(4)))}
+	case 8: // arbitrary bytes with a complete header and a zero error byte
+		b := r.Bytes(10 + r.Intn(30))
+		b[9] = 0
+		if r.Bool() { // a small id: may hit a live call with a random type and body
+			copy(b[:8], []byte{byte(r.Intn(6)), 0, 0, 0, 0, 0, 0, 0})
+			b[8] = byte([]int{1, 2, 3, 4, 6, 8, 9, 5}[r.Intn(8)])
+		}
+		return FrameSpec{Kind: "raw", Raw: fmt.Sprintf("%x", b)}
 	}
 	return FrameSpec{Kind: "future", Off: 7, Fields: []rpcx.Field{genField(r, "bytes", 9999)}}
 }
@@ -376,7 +385,7 @@ func genHistory(seed uint64, i int) Case {
 		return c
 	}
 	streams := []string{"perm", "perm", "perm", "bad", "bad", "bad", "sendfail", "errbyte",
-		"shutdown", "hint", "peerclose", "cancel", "mixed", "mixed"}
+		"shutdown", "hint", "peerclose", "cancel", "mixed", "mixed", "garbage"}
 	c.Stream = streams[r.Intn(len(streams))]
 	rounds := 1 + r.Intn(3)
 	for round := 0; round < rounds && !g.dead; round++ {
@@ -394,6 +403,13 @@ func genHistory(seed uint64, i int) Case {
 			g.answerAll(false, r.Intn(3) == 0)
 		case "bad", "mixed":
 			g.answerAll(true, true)
+		case "garbage": // wholly random frames, most of them fatal (non-zero error byte)
+			var fs []FrameSpec
+			for j := 0; j < 1+r.Intn(3); j++ {
+				fs = append(fs, FrameSpec{Kind: "raw", Raw: fmt.Sprintf("%x", r.Bytes(r.Intn(48)))})
+			}
+			g.frames(fs)
+			g.answerAll(false, false)
 		case "sendfail":
 			if r.Bool() {
 				g.answerAll(false, false)
@@ -739,6 +755,9 @@ func (rn *runner) resolve(f FrameSpec) (data []byte, text bool, sf SentFrame) {
 	sf = SentFrame{Kind: f.Kind, To: f.To, Fields: f.Fields}
 	idOf := func(k int) (uint64, int, string) {
 		cr := rn.callers[k]
+		if cr == nil { // (a shrunk script may name a caller that no longer exists)
+			return rn.maxID + 1000 + uint64(k), 1, "helloResponse"
+		}
 		ki := kinds[cr.spec.Kind]
 		id := cr.id
 		if !cr.seen {
@@ -755,7 +774,7 @@ func (rn *runner) resolve(f FrameSpec) (data []byte, text bool, sf SentFrame) {
 		var resp string
 		id, typ, resp = idOf(f.To)
 		data = rn.encodeGood(id, typ, resp, f.Fields)
-		sf.Whole = rn.callers[f.To].seen
+		sf.Whole = rn.callers[f.To] != nil && rn.callers[f.To].seen
 		switch f.Kind {
 		case "tail":
 			for j := 0; j < f.Tail; j++ {
@@ -1021,30 +1040,59 @@ func runHistory(c *Case, tap *rpcx.LogTap) {
 	rn.run()
 }
 
+func loadScript(path string) []Case {
+	bs, err := os.ReadFile(path)
+	if err != nil {
+		fmt.Fprintln(os.Stderr, err)
+		os.Exit(2)
+	}
+	var cs []Case
+	if err := json.Unmarshal(bs, &cs); err != nil {
+		fmt.Fprintln(os.Stderr, err)
+		os.Exit(2)
+	}
+	return cs
+}
+
 func main() {
 	seed := flag.Uint64("seed", 1, "seed")
 	n := flag.Int("n", 300, "number of histories")
+	script := flag.String("script", "", "JSON file with a list of cases (stream, steps) to run instead")
 	child := flag.Bool("child", false, "child mode")
 	from := flag.Int("from", 0, "first case (child)")
 	mem := flag.Uint64("mem", 4<<30, "address-space limit of the child")
 	flag.Parse()
 
+	var scripted []Case
+	if *script != "" {
+		scripted = loadScript(*script)
+		*n = len(scripted)
+	}
+	gen := func(i int) Case {
+		if scripted != nil {
+			return Case{I: i, Stream: scripted[i].Stream, Steps: scripted[i].Steps}
+		}
+		return genHistory(*seed, i)
+	}
 	out := hx.NewOut(os.Stdout)
 	if *child {
 		hx.LimitMemory(*mem)
 		tap := rpcx.InstallLogTap()
 		for i := *from; i < *n; i++ {
-			c := genHistory(*seed, i)
+			c := gen(i)
 			runHistory(&c, tap)
 			out.Emit(&c)
 		}
 		return
 	}
 	args := []string{"-seed", strconv.FormatUint(*seed, 10), "-n", strconv.Itoa(*n)}
+	if *script != "" {
+		args = append(args, "-script", *script)
+	}
 	err := hx.RunIsolated(*n, args, *mem,
 		func(i int, raw []byte) { os.Stdout.Write(append(raw, '\n')) },
 		func(i int, why string) {
-			c := genHistory(*seed, i)
+			c := gen(i)
 			c.Events, c.Frames, c.Callers = []Event{}, []SentFrame{}, []CallerObs{}
 			c.Crash = "fatal: " + why
 			out.Emit(&c)
